@@ -4,7 +4,7 @@ from pyvc.contracts import Registry
 
 def build():
     R = Registry()
-    from . import theory, c_cropping_batch, c_cropping_reap, c_stats, c_runner, c_prepare, c_labels
+    from . import theory, c_cropping_batch, c_cropping_reap, c_stats, c_runner, c_prepare, c_labels, c_cropping_grow
     theory.install(R)
     c_cropping_batch.install(R)
     c_cropping_reap.install(R)
@@ -20,6 +20,7 @@ def build():
     c_labels.install_ds(R)
     c_labels.install_to_ds(R)
     c_labels.install_wrappers(R)
+    c_cropping_grow.install(R)
     # calls dropped as no-ops (DESIGN 2.2) -- every dropped call site is listed in the evidence
     R.inert |= {"print", "warnings.warn", "progbar", "time.sleep", "logger.setLevel", "logging.getLogger",
                 "sys.stderr.flush"}
